@@ -1909,11 +1909,11 @@ class P(Prop):
                 return "%sstep %d %s (specification table): %s" % (label, k, op, d)
         return None
 
-    def diff_state(self, si, sm):
+    def diff_state(self, si, sm, values=True):
         """two observations of one track (the implementation's, the model's), without outcome"""
         if sorted(si["names"]) != sorted(sm["names"]):
             return "names impl=%s model=%s" % (si["names"], sm["names"])
-        for nm in si["names"]:
+        for nm in si["names"] if values else []:
             if not close(si["cols"][nm], sm["cols"][nm]):
                 return "column %s impl=%s model=%s" % (nm, si["cols"][nm], sm["cols"][nm])
         if si["rowlens"] != sm["rowlens"]:
@@ -1934,6 +1934,17 @@ class P(Prop):
             return "heap model: %d reply groups for %d steps" % (len(world or []), len(steps))
         c = case["carry"]
         last_ops = len(case["ops"]) - 1
+        # States in which WHICH value a name reads depends on where the columns sit in the observations (the property leaves that
+        # free: a swap-remove is as good as a shift): the sum of two tracks whose listings differ only in their order (`+` compares
+        # them position by position), and a derived track that starts misaligned (finding sum-of-different-feature-lists: no name
+        # listed, values carried). There the outcome, the listed names, the number of values per observation and the coordinates
+        # are compared, not the column values.
+        loose = False
+        if c[0] == "plus" and "first" in impl_out:
+            a, b = impl_out["src_before"]["names"], (impl_out.get("other_before") or {}).get("names")
+            if b is not None and a != b and sorted(a) == sorted(b):
+                return None
+            loose = self.carried_table(impl_out["first"]) is None
         for what, g in zip(steps, world):
             if what is None:
                 continue
@@ -1958,15 +1969,24 @@ class P(Prop):
             trk = {"pre": 0, "other_pre": 1, "ops": derived, "post": 0}[ph]
             si = impl_out[{"ops": "steps"}.get(ph, ph)][k]
             op = self.phase_ops(case, ph)[k]
-            d = self.diff_step(op, si, g[trk]) if trk < len(g) else "no such track in the model"
+            if trk >= len(g):
+                d = "no such track in the model"
+            elif loose and ph == "ops":
+                d = ("outcome impl=%s model=%s" % (si["out"], g[trk]["out"])) if si["out"] != g[trk]["out"] else self.diff_state(si, g[trk], values=False)
+            else:
+                d = self.diff_step(op, si, g[trk])
             if d:
                 return label + "%s: %s" % (op, d)
             if ph == "ops" and k == last_ops:
                 pairs = [] if c[0] in self.SAME_OBJECT else [(0, impl_out["src_after"], "source afterwards")]
                 if c[0] == "plus":
                     pairs.append((1, impl_out["other_after"], "second operand afterwards"))
+                # a track that SHARES its observations with the derived one (extract / slice / +) has been written to through
+                # column positions of the derived track: which of its names reads what then depends on where the columns sit, which
+                # the property leaves free (a swap-remove is as good as a shift) - compared there: listed names, values per
+                # observation, coordinates; for the independent forms everything
                 for j, sj, nm in pairs:
-                    d = self.diff_state(sj, g[j])
+                    d = self.diff_state(sj, g[j], values=c[0] in self.INDEPENDENT)
                     if d:
                         return label + nm + ": " + d
             if ph == "post" and k == len(case["post"]) - 1:
